@@ -75,6 +75,10 @@ fn configs(tier: Tier) -> Vec<Cfg> {
     k10.nranges = Some(3);
     k10.min_cpr = Some(3.0);
     v.push(k10);
+    let mut k11 = base("K11-defrag-only-n3-cpr8");
+    k11.nranges = Some(3);
+    k11.min_cpr = Some(8.0);
+    v.push(k11);
     if tier == Tier::Thorough {
         let mut k8 = base("K8-chunks4-defrag-n3");
         k8.max_xorb_chunks = Some(4);
@@ -117,6 +121,12 @@ fn plan(tier: Tier) -> Vec<(Cfg, &'static str)> {
             for k in ["K9", "K10", "K3"] {
                 p.push((by(k), "F9"));
             }
+            for k in ["K1", "K4"] {
+                p.push((by(k), "F10"));
+            }
+            for k in ["K11", "K10"] {
+                p.push((by(k), "F9c"));
+            }
         },
         Tier::Thorough => {
             p.push((by("K0"), "F7"));
@@ -124,15 +134,15 @@ fn plan(tier: Tier) -> Vec<(Cfg, &'static str)> {
                 if c.target == 65536 {
                     continue;
                 }
-                for f in ["F1", "F2", "F3", "F4", "F5", "F6", "F6c", "FS", "F8", "F9"] {
-                    if c.target == 1024 && (f == "F2" || f == "F3" || f == "F4" || f == "F8" || f == "F9") {
+                for f in ["F1", "F2", "F3", "F4", "F5", "F6", "F6c", "FS", "F8", "F9", "F9b", "F9c", "F10"] {
+                    if c.target == 1024 && (f == "F2" || f == "F3" || f == "F4" || f == "F8" || f == "F9" || f == "F9b" || f == "F9c" || f == "F10") {
                         continue;
                     }
-                    if f == "F9" && !c.prevention_on() {
+                    if (f == "F9" || f == "F9b" || f == "F9c") && !c.prevention_on() {
                         continue;
                     }
-                    if c.name.starts_with("K9") || c.name.starts_with("K10") {
-                        if f != "F9" && f != "F3" && f != "F1" {
+                    if c.name.starts_with("K9") || c.name.starts_with("K10") || c.name.starts_with("K11") {
+                        if f != "F9" && f != "F9b" && f != "F9c" && f != "F3" && f != "F1" && f != "F10" {
                             continue;
                         }
                     }
